@@ -217,6 +217,7 @@ class Canon:
             self.split_tuple_let_else(body)
             self.let_else(body)
             self.flatten_blocks(body)
+            self.find_match_tail(body, f)
             self.option_searches(body, f)
             self.flatten_blocks(body)
             # a closure whose whole body is a helper call: give it a block so the helper's statements can be spliced
@@ -1028,6 +1029,67 @@ class Canon:
             if not (e.get("k") == "Call" and e["f"].get("k") == "Def" and str(e["f"].get("fn", "")).endswith("::Some") and len(e.get("args", [])) == 1):
                 return None
         return f
+
+    def find_match_tail(self, body, f_owner):
+        """At the tail of a unit function:  `let x = (lo..hi).find(|&k| T); match x { Some(p) => A, None => B }`  (or the find as the scrutinee)
+             ->  `for k in lo..hi { if T { A[p := k]; return; } }  B`
+        the scan-and-early-return loop that `find` abbreviates (first match wins in both forms, T is evaluated for the same k in the same order)."""
+        if body.get("k") != "Block" or str(f_owner.get("output")) not in ("()", "None", ""):
+            return
+        t = _strip(body["expr"]) if body.get("expr") is not None else None
+        if t is None or t.get("k") != "Match" or len(t.get("arms", [])) != 2 or any(a.get("guard") for a in t["arms"]):
+            return
+        scr = _strip(t["scrut"])
+        drop = None
+        if scr.get("k") == "Local" and body.get("stmts"):
+            last = body["stmts"][-1]
+            if last.get("k") == "Let" and (last.get("pat") or {}).get("k") == "Bind" and last["pat"].get("v") == scr.get("v") and last.get("init") is not None and \
+                    len([x for x in _walk(body) if x.get("k") == "Local" and x.get("v") == scr.get("v")]) == 1:
+                drop, scr = last, _strip(last["init"])
+        if scr.get("k") != "MethodCall" or scr.get("name") != "find" or str(scr.get("fn")) != "std::iter::Iterator::find" or len(scr.get("args", [])) != 1:
+            return
+        rng, cl = _strip(scr["recv"]), _strip(scr["args"][0])
+        if rng.get("k") != "Range" or cl.get("k") != "Closure" or len(cl.get("params", [])) != 1:
+            return
+        prm = cl["params"][0]
+        if prm.get("k") != "Ref" or (prm.get("pat") or prm.get("p") or {}).get("k") != "Bind":
+            return
+        kb = prm.get("pat") or prm.get("p")
+        T = cl["body"]
+        if any(x.get("k") in ("Ret", "Try", "Closure") for x in _walk(T)):
+            return
+        some = [a for a in t["arms"] if str(a["pat"].get("path", "")).endswith("::Some") or str(a["pat"].get("path", "")).endswith("Some")]
+        none = [a for a in t["arms"] if a not in some]
+        if len(some) != 1 or len(none) != 1:
+            return
+        ps = some[0]["pat"].get("ps") or []
+        if len(ps) != 1 or ps[0].get("k") != "Bind" or ps[0].get("byref"):
+            return
+        A, B = some[0]["body"], none[0]["body"]
+        if any(x.get("k") in ("Ret", "Break", "Continue") for x in _walk(A)):
+            return
+        for x in _walk(A):
+            if x.get("k") == "Local" and x.get("v") == ps[0]["v"]:
+                x["v"] = kb["v"]
+                x["name"] = kb.get("name")
+        sp = list(t.get("sp") or [0, 0, 0, 0])
+        ret = {"k": "Ret", "e": None, "id": self._id(), "ty": "!", "sp": list(sp)}
+        a0 = _strip(A)
+        a_st = list(a0.get("stmts", [])) + ([{"k": "Semi", "e": a0["expr"], "sp": a0["expr"].get("sp")}] if a0.get("expr") is not None else []) if a0.get("k") == "Block" and not a0.get("m") \
+            else [{"k": "Semi", "e": A, "sp": A.get("sp")}]
+        then = {"k": "Block", "stmts": a_st + [{"k": "Semi", "e": ret, "sp": list(sp)}], "expr": None, "id": self._id(), "ty": "!", "sp": list(sp)}
+        iff = {"k": "If", "cond": T, "then": then, "else": None, "id": self._id(), "ty": "()", "sp": list(sp)}
+        loop = {"k": "For", "pat": kb, "iter": scr["recv"], "body": {"k": "Block", "stmts": [{"k": "Semi", "e": iff, "sp": list(sp)}], "expr": None, "id": self._id(), "ty": "()", "sp": list(sp)},
+                "id": self._id(), "ty": "()", "sp": list(sp)}
+        b0 = _strip(B)
+        stmts = [x for x in body["stmts"] if x is not drop] + [{"k": "Semi", "e": loop, "sp": list(sp)}]
+        if b0.get("k") == "Block" and not b0.get("m"):
+            stmts += list(b0.get("stmts", []))
+            body["expr"] = b0.get("expr")
+        else:
+            body["expr"] = B
+        body["stmts"] = stmts
+        self.stats["find_match_tail"] = self.stats.get("find_match_tail", 0) + 1
 
     def option_searches(self, body, f_owner):
         """`match h(..) { Some(p) => A, None => B }` in tail position and `if let Some(p) = h(..) { A; return .. }` as a statement,
